@@ -52,7 +52,10 @@ func (p *pool) Acquire(ctx context.Context) (v wire) {
 		go func() {
 			<-poolCtx.Done()
 			if context.Cause(poolCtx) != errAcquireComplete { // no need to broadcast if the poolCtx is cancelled explicitly.
+				// hold the lock so that the broadcast can't fall between the waiter's condition check and its cond.Wait
+				p.cond.L.Lock()
 				p.cond.Broadcast()
+				p.cond.L.Unlock()
 			}
 		}()
 	}
